@@ -11,6 +11,7 @@ import (
 	"fmt"
 	"hash/fnv"
 	"math/rand"
+	"regexp"
 	"sort"
 	"strings"
 
@@ -65,15 +66,19 @@ func (Prop) Describe(t vp.Tier) vp.Description {
 			"programs do not use the runtime library (absent under noquotas) nor collectgarbage/__gc (finaliser timing legitimately differs between pools; judged by C18)",
 			"refvm as in C01",
 		},
-		Floor: map[vp.Tier]int64{vp.Quick: 800, vp.Thorough: 8000}[t],
+		Floor: map[vp.Tier]int64{vp.Quick: 400, vp.Thorough: 8000}[t],
 	}
 }
 
+var addrRE = regexp.MustCompile(`0x[0-9a-f]{6,}`)
+
+// digest hashes a complete outcome; addresses printed by tostring(table) and
+// the like are masked (they legitimately differ between processes).
 func digest(o *gl.Outcome) string {
 	h := fnv.New64a()
-	fmt.Fprintf(h, "%s|%s|%s|%s|%s", o.Kind, o.Rets, o.ErrVal, o.ErrMsg, o.PanicMsg)
+	fmt.Fprintf(h, "%s|%s|%s|%s|%s", o.Kind, addrRE.ReplaceAllString(o.Rets, "0x?"), addrRE.ReplaceAllString(o.ErrVal, "0x?"), addrRE.ReplaceAllString(o.ErrMsg, "0x?"), o.PanicMsg)
 	for _, e := range o.Trace {
-		h.Write([]byte(e))
+		h.Write([]byte(addrRE.ReplaceAllString(e, "0x?")))
 		h.Write([]byte{0})
 	}
 	return fmt.Sprintf("%016x", h.Sum64())
@@ -87,14 +92,14 @@ type slice struct {
 }
 
 var slices = []slice{
-	{"gen", 14, func(c *vp.Child) int { return c.Pick(600, 12000) }, nil},
-	{"err", 15, func(c *vp.Child) int { return c.Pick(250, 5000) }, func(r *rand.Rand) lg.GenOptions {
+	{"gen", 14, func(c *vp.Child) int { return c.Pick(300, 12000) }, nil},
+	{"err", 15, func(c *vp.Child) int { return c.Pick(120, 5000) }, func(r *rand.Rand) lg.GenOptions {
 		o := lg.DefaultGenOptions()
 		o.Stmts = 12 + r.Intn(30)
 		o.WError, o.WPcall, o.ErrInMeta, o.Health = 14, 14, true, true
 		return o
 	}},
-	{"co", 16, func(c *vp.Child) int { return c.Pick(250, 5000) }, func(r *rand.Rand) lg.GenOptions {
+	{"co", 16, func(c *vp.Child) int { return c.Pick(120, 5000) }, func(r *rand.Rand) lg.GenOptions {
 		o := lg.DefaultGenOptions()
 		o.Stmts = 10 + r.Intn(25)
 		o.WCoroutine, o.WTBC = 18, 6
